@@ -39,6 +39,8 @@ VIEW_OF_VEC = ("std::ops::Deref::deref", "std::ops::DerefMut::deref_mut", "std::
                "std::vec::Vec::<T, A>::as_mut_slice", "std::convert::AsRef::as_ref", "std::convert::AsMut::as_mut",
                "std::clone::Clone::clone")
 INDEX = ("std::ops::Index::index", "std::ops::IndexMut::index_mut")
+PURE_VIEW_NAMES = ("len", "is_empty", "split_at", "split_at_mut", "as_ptr", "as_slice", "as_ref", "deref", "first", "last", "get",
+                   "into_iter", "iter", "as_array", "borrow")
 
 
 def fresh(tag):
@@ -46,9 +48,10 @@ def fresh(tag):
 
 
 class State:
-    __slots__ = ("cons", "env", "ref", "boolv", "vec")
+    __slots__ = ("cons", "env", "ref", "boolv", "vec", "consumed")
 
     def __init__(self):
+        self.consumed = []  # [(start lin, length lin, what, bb)]: sub-views of the tracked input handed on
         self.cons = []
         self.env = {}      # local -> lin (integer value)
         self.ref = {}      # local -> ('slice', lin) | ('vec', field)
@@ -62,6 +65,7 @@ class State:
         s.ref = dict(self.ref)
         s.boolv = dict(self.boolv)
         s.vec = dict(self.vec)
+        s.consumed = list(self.consumed)
         return s
 
     def feasible(self):
@@ -101,6 +105,7 @@ class Interp:
         self._vn = {}
         self.probe = None
         self.probes = []
+        self.track_input = None     # parameter local whose sub-views handed on are logged in State.consumed
 
     # ---- helpers ---------------------------------------------------------------------------------
     def operand_lin(self, st, o):
@@ -295,6 +300,7 @@ class Interp:
         p = c.path
         rp = c.rpath
         args = c.args
+        self.note_consumption(st, c)
 
         def a_ref(i):
             return self.ref_of_operand(st, args[i]) if i < len(args) else None
@@ -336,10 +342,11 @@ class Interp:
             if d is not None:
                 st.ref.pop(("tup", d, 0), None)
                 st.ref.pop(("tup", d, 1), None)
+                org = a_ref(0)[2] if a_ref(0) and len(a_ref(0)) > 2 else None
                 if mid is not None:
-                    st.ref[("tup", d, 0)] = ("slice", mid)
+                    st.ref[("tup", d, 0)] = ("slice", mid) + ((org,) if org else ())
                     if base is not None:
-                        st.ref[("tup", d, 1)] = ("slice", L.lin_add(base, mid, -1))
+                        st.ref[("tup", d, 1)] = ("slice", L.lin_add(base, mid, -1)) + (((org[0], L.lin_add(org[1], mid)),) if org else ())
                         st.cons.append(L.ge(base, mid))      # split_at returned: mid <= len
             return
         if p in INDEX and len(args) == 2:
@@ -347,7 +354,9 @@ class Interp:
             rng = args[1]
             res = self.range_len(st, base, rng)
             if res is not None and d is not None:
-                st.ref[d] = ("slice", res)
+                org = a_ref(0)[2] if a_ref(0) and len(a_ref(0)) > 2 else None
+                off = self.range_start(st, rng) if org else None
+                st.ref[d] = ("slice", res) + (((org[0], L.lin_add(org[1], off)),) if org and off is not None else ())
             return
         if (p in EXTEND) and a_ref(0) and a_ref(0)[0] == "vec":
             f = a_ref(0)[1]
@@ -414,6 +423,33 @@ class Interp:
             return base
         return None
 
+    def range_start(self, st, rng):
+        if rng.get("k") not in ("copy", "move") or rng["p"]:
+            return None
+        agg = self._agg.get(rng["l"])
+        if agg is None:
+            return None
+        nm, ops = agg
+        if nm in ("RangeTo", "RangeFull", "RangeToInclusive"):
+            return L.lin_const(0)
+        if nm in ("Range", "RangeFrom", "RangeInclusive") and ops:
+            return self.operand_lin(st, ops[0])
+        return None
+
+    def note_consumption(self, st, c):
+        """a sub-view of the tracked input handed to anything but a pure view / measuring function"""
+        if self.track_input is None:
+            return
+        if c.name in PURE_VIEW_NAMES or c.path in INDEX or c.path.startswith(("core::panicking", "core::fmt", "std::fmt")):
+            return
+        for i, a in enumerate(c.args):
+            r = self.ref_of_operand(st, a)
+            if r is not None and r[0] == "slice" and len(r) > 2 and r[2][0] == self.track_input:
+                # the destination operand of a copy is not a consumption of the source bytes
+                if c.name in ("copy_from_slice", "clone_from_slice") and i == 0:
+                    continue
+                st.consumed.append((r[2][1], r[1], c.name, c.bb))
+
     # ---- edges -----------------------------------------------------------------------------------
     def cond_constraints(self, st, bv, truth):
         """constraints for boolean value bv being `truth`"""
@@ -450,7 +486,7 @@ class Interp:
         for p in range(1, fn.argc + 1):
             t = fn.locals[p]["t"]
             if t in ("&[u8]", "&mut [u8]"):
-                init.ref[p] = ("slice", L.lin_var(("len", fn.local_name(p))))
+                init.ref[p] = ("slice", L.lin_var(("len", fn.local_name(p))), (p, L.lin_const(0)))
             elif t in ("usize", "u64", "u32", "u8"):
                 init.env[p] = L.lin_var(("local", fn.local_name(p)))
         init.cons = list(self.entry_cons(init))
@@ -479,7 +515,18 @@ class Interp:
                         self.probes.append((cobj, st.copy()))
                     self.do_call(st, cobj)
                     if t.get("t") is not None:
-                        out.append((t["t"], st))
+                        dl = cobj.dest["l"] if not cobj.dest["p"] else None
+                        mo = st.env.get(("minof", dl)) if dl is not None else None
+                        if mo is not None and mo[0] is not None and mo[1] is not None and dl in st.env:
+                            # min(a, b) is a or b: two states (v == a <= b | v == b <= a)
+                            v_ = st.env[dl]
+                            s1, s2 = st.copy(), st.copy()
+                            s1.cons += [L.eq(v_, mo[0]), L.ge(mo[1], mo[0])]
+                            s2.cons += [L.eq(v_, mo[1]), L.ge(mo[0], mo[1])]
+                            out.append((t["t"], s1))
+                            out.append((t["t"], s2))
+                        else:
+                            out.append((t["t"], st))
                 elif k == "goto":
                     out.append((t["t"], st))
                 elif k in ("drop", "assert"):
